@@ -11,7 +11,7 @@ Behaviour dict (all optional):
   file            bytes sent for RETR (default: RETR answers 550, so that the proxy falls back to a directory listing)
   greeting / login_msg / cwd_msg   list of text lines sent as a multi-line 220 / 230 / 250 reply (server messages end up in
                   the pages Squid builds)
-  cwd_code        reply code for CWD (default 250), list_code: preliminary reply for LIST (default 150),
+  cwd_code        reply code for CWD (default 250), list_code: reply to LIST (default 150; >= 300 refuses LIST only, NLST still works),
   done_code       completion reply after the transfer (default 226), pass_code (default 230), user_code (default 331)
   epsv            True (default): answer EPSV with 229; False: 500 (the client falls back to PASV)
   pasv_reply / epsv_reply   literal reply lines instead of the generated ones (address-parsing experiments)
@@ -210,6 +210,12 @@ class FtpServer:
                         self._reply(c, 425, "use PASV first")
                         continue
                     data = b.get("file", b"") if verb == "RETR" else (b.get("nlst", b.get("listing", b"")) if verb == "NLST" else b.get("listing", b""))
+                    code = int(b.get("list_code", 150)) if verb == "LIST" else 150
+                    if code >= 300:
+                        # refused before the transfer: the passive listener (and a data connection the client may already
+                        # have opened to it) stays usable for the next attempt (e.g. NLST after LIST)
+                        self._reply(c, code, "refused")
+                        continue
                     if not self._transfer(c, sess, pasv, data, b):
                         return
                     pasv = None
@@ -251,10 +257,7 @@ class FtpServer:
 
     def _transfer(self, c, sess, pasv, data, b):
         """-> False when the control connection must end"""
-        self._reply(c, int(b.get("list_code", 150)), "opening data connection")
-        if int(b.get("list_code", 150)) >= 300:
-            pasv.close()
-            return True
+        self._reply(c, 150, "opening data connection")
         try:
             d, _ = pasv.accept()
         except (OSError, socket.timeout):
